@@ -1,11 +1,13 @@
 """C14 - queued charts dispatch posted events in deque order, one per step.
 BFS over {post_fifo(x), post_lifo(x), next_rtc, complete_circuit}; handling B
-posts A fifo, C posts A lifo, F posts B lifo and C fifo - from inside the step."""
+posts A fifo, C posts A lifo, F posts B lifo and C fifo - from inside the step; the handlers of G (after
+posting A) and H raise: the exception reaches the caller, the event is consumed,
+the rest stays queued."""
 from mc.common import Result
 from mc import queued
 
 PID = "C14"
-ALPHA = [("post_fifo", x) for x in "ABCF"] + [("post_lifo", x) for x in "ABCF"] + [("next_rtc",), ("complete_circuit",)]
+ALPHA = [("post_fifo", x) for x in "ABCFG"] + [("post_lifo", x) for x in "ABCFH"] + [("next_rtc",), ("complete_circuit",)]
 
 
 def run(tier):
